@@ -304,3 +304,10 @@ func sourceScalars() []*big.Int {
 }
 
 var blsR, _ = new(big.Int).SetString("73eda753299d7d483339d80809a1d80553bda402fffe5bfeffffffff00000001", 16)
+
+func boolAns(ok bool, err error) string {
+	if err != nil {
+		return "err " + errClass(err)
+	}
+	return fmt.Sprint(ok)
+}
